@@ -244,6 +244,36 @@ def family_part(ck: Check):
                 if len(ck.cov["samples"]) < 8:
                     ck.sample({"family_case": label, "parameters": params, "periods": [float(o.period) for o in famv],
                                "accepted": res.accepted_count, "rejected": res.rejected_count, "iterations": res.iterations})
+    # spellings of the target interval: "(min,max) for 1-D or (2,m)"; the options object normalises them (component-wise min / max),
+    # so a run must not depend on the spelling.  Downward continuation of the halo family with the target written four ways.
+    fam, kw, comp, step = seeds[0]
+    ref_params = None
+    for spelling in ("(2,1) ascending", "(2,1) descending", "1-D ascending", "1-D descending"):
+        seed = L.create_orbit(fam, **kw)
+        seed.correct()
+        p0 = float(seed.initial_state[comp])
+        lo, hi = p0 - 2.5 * step, p0 + 1e-9
+        tgt = {"(2,1) ascending": ([lo], [hi]), "(2,1) descending": ([hi], [lo]), "1-D ascending": (lo, hi), "1-D descending": (hi, lo)}[spelling]
+        label = f"{fam}|natural|target-spelling={spelling}"
+        ck.count(("family", label), True)
+        try:
+            opts = OrbitContinuationOptions(target=tgt, step=(-step,), max_members=6, max_retries_per_step=8, step_min=1e-10,
+                                            step_max=1.0, shrink_policy=None, extra_params=seed.correction_options)
+            res = seed.generate(opts)
+        except Exception as ex:
+            ck.violation(f"orbit.generate|target-spelling|raises:{type(ex).__name__}", f"{label}: {ex!r}"[:300], {"case": label})
+            continue
+        t = cs.trace(label, {"target_normalised": -130, "only_last_outside_target": -100, "spelling_invariance": -100, "leaves_target": -100},
+                     {"family": fam, "stepper": "natural", "scenario": "target-spelling"})
+        tn = np.asarray(opts.target, dtype=float)
+        cs.obs(t, "target_normalised", (abs(float(tn[0, 0]) - lo) + abs(float(tn[1, 0]) - hi)) if tn.shape == (2, 1) else 1.0)
+        params = [float(np.asarray(p).ravel()[0]) for p in res.parameter_values]
+        inside = [lo <= p <= hi for p in params]
+        cs.obs(t, "only_last_outside_target", 0.0 if all(inside[:-1]) else 1.0)
+        cs.obs(t, "leaves_target", 0.0 if (len(params) >= 3 and (not inside[-1] or len(params) == 6)) else 1.0)
+        if ref_params is None:
+            ref_params = params
+        cs.obs(t, "spelling_invariance", 0.0 if (len(params) == len(ref_params) and max(abs(a - b) for a, b in zip(params, ref_params)) < 1e-12) else 1.0)
     if not any(v > 0 for v in ck.cov["parts"].get("family_rejections", {}).values()):
         ck.notes.append("family contracts: no forced-rejection scenario produced a rejection; the shrink path was not exercised end to end")
     cs.decide(key_fn=lambda t, n: f"orbit.generate|{n}")
